@@ -57,7 +57,7 @@ CORPUS = [
 
 def gen_cases(ctx):
     rng = ctx.rng
-    n = 500 if ctx.thorough else 75
+    n = 300 if ctx.thorough else 75
     cases = [dict(c) for c in CORPUS]
     while len(cases) < n:
         kind = rng.choice(["merge", "concat", "zip", "broadcast", "balance", "partition"])
@@ -186,7 +186,7 @@ STEP_CORPUS = [
 
 def gen_step_cases(ctx):
     rng = ctx.rng
-    n = 1500 if ctx.thorough else 300
+    n = 1000 if ctx.thorough else 300
     cases = [dict(c) for c in STEP_CORPUS]
     while len(cases) < n:
         kind = rng.choice(["merge", "concat", "zip", "broadcast", "balance", "balance", "partition"])
@@ -255,11 +255,13 @@ def step_oracle(c, r):
     if k in ("broadcast", "balance", "partition"):
         demand = [0] * n
         active = [True] * n
+        solicited = True
         for m, s in zip(c["script"], steps):
             if s.get("state") is None:
                 break
             out = list(s.get("out") or [])
             deliveries = []
+            pulls = []
             i = 0
             while i < len(out):
                 if out[i] == 30:
@@ -269,6 +271,7 @@ def step_oracle(c, r):
                     else:
                         i += 3
                 elif out[i] == 20:
+                    pulls.append(out[i + 1])
                     i += 2
                 else:
                     i += 1
@@ -295,12 +298,22 @@ def step_oracle(c, r):
                         return "balance hub: element %d delivered to a slot without demand" % v
                 for (sl, _v) in deliveries:
                     demand[sl] -= 1
+            # what the hub asks from upstream must be covered by the demand the branches have signalled
+            # (only while the script is well-formed: an unsolicited element makes the ledger negative)
+            if any(d < 0 for d in demand):
+                solicited = False
+            act = [demand[i_] for i_ in range(n) if active[i_]]
+            for p_ in (pulls if solicited else []):
+                cap = sum(act) if k == "balance" else (min(act) if act else 0)
+                if p_ > max(cap, 0):
+                    return "%s hub requested %d elements from upstream while the branches' outstanding demand only covers %d" % (k, p_, max(cap, 0))
             if not s["alive"]:
                 break
         return None
     # fan-in: elements leave in arrival order (merge/concat), never beyond demand
     demand = 0
     arrived, sent = [], []
+    dones = 0
     for m, s in zip(c["script"], steps):
         if s.get("state") is None:
             break
@@ -308,6 +321,10 @@ def step_oracle(c, r):
             demand += m["n"]
         elif m["t"] == "val":
             arrived.append(m["v"])
+        elif m["t"] == "done":
+            dones += 1
+        if k == "concat" and n > 0 and len(s["state"]) >= 3 and s["state"][2] > min(n, dones + 1):
+            return "concat source has spawned %d sub-pipelines after only %d of them completed (sources would interleave)" % (s["state"][2], dones)
         out = list(s.get("out") or [])
         i = 0
         while i < len(out):
@@ -350,7 +367,7 @@ def run(ctx):
         if os.path.exists(p):
             os.remove(p)
     files = ["zz_verif_C46_test.go", "zz_verif_C45_test.go"]
-    rc, out = ctx.go_test("stream", "^TestVerifC46", files, env={"VERIF_PAR": "1"}, timeout=1500 if ctx.thorough else 600)
+    rc, out = ctx.go_test("stream", "^TestVerifC46", files, env={"VERIF_PAR": "1"}, timeout=2400 if ctx.thorough else 1500)
     res = {r["id"]: r for r in read_jsonl(os.path.join(ctx.work, "c46_out.jsonl"))}
     sres = {r["id"]: r for r in read_jsonl(os.path.join(ctx.work, "c46_steps_out.jsonl"))}
     if rc != 0 or len(res) != len(cases) or len(sres) != len(scases):
@@ -486,8 +503,18 @@ Eval vm_compute in (%s).
 THEOREMS = ["C46_merge_is_an_interleaving", "C46_concat_is_append", "C46_zip_is_positional", "C46_hub_routes_every_element"]
 
 META = {
+    "ready": True,
     "category": "proof",
-    "technique": "Rocq proof over hand-written state-machine models of the junction actors + black-box and actor-step conformance",
-    "text": "see final report",
+    "technique": "Rocq proof over hand-written state-machine models of the junction actors and their environments + black-box and actor-step conformance",
+    "text": "mergeSourceActor, concatSourceActor, zipNSourceActor and the broadcast/balance/partition hub actors modelled as handlers mirroring the Go Receive "
+            "methods (buffers, demand arrays, pending, done flags, round-robin cursor); environments (sub-pipeline feeds FIFO per slot, demand-respecting upstream, "
+            "branch demand) as transition systems. Proved for every interleaving, every number of branches and every source length: Merge output projected on "
+            "source i is a prefix of / at completion equal to source i and every element belongs to a source; Concat = ++; Zip tuple k = k-th elements, count = "
+            "shortest source at completion; hubs never drop, never serve a branch beyond its demand, Broadcast gives every branch the consumed prefix, Balance routes "
+            "each element to exactly one branch, Partition routes v to branch v mod m; completion signalled at most once. Every run: ~75 junction graphs (0..5 sources / "
+            "1..5 branches, lengths around the demand window) through the public API judged by the Coq specifications (vm_compute) and by independent Python checks; "
+            "~300 message scripts driven through the REAL junction actors between probes, every step compared with the Coq handlers.",
     "design_ref": "DESIGN.md 7/C46",
+    "level_note": "Trusted: Coq kernel, the Go harness, per-sender FIFO of the actor runtime, the linear sub-pipelines (C45). Assumes error-free graphs without branch cancellation "
+                  "(with a cancelling branch Balance/Partition drop the elements already requested on its behalf - observed, not part of the property). Liveness is checked per run by the stall oracle only.",
 }
